@@ -22,7 +22,7 @@ const modulePrefix = "github.com/pgavlin/dawn"
 // stdInit: dependency packages whose initialisers were found to run cleanly under the engine; every
 // unit runs them (plus every package of the dawn module). Reads of variables set by any other
 // package's initialiser abort the path as unsupported (see guardGlobal).
-var stdInit = []string{"errors", "internal/oserror", "io", "io/fs", "bytes", "math/big", "go.starlark.net/starlark", "go.starlark.net/resolve"}
+var stdInit = []string{"unicode/utf8", "strconv", "errors", "internal/oserror", "io", "io/fs", "bytes", "math/big", "go.starlark.net/starlark", "go.starlark.net/resolve"}
 
 // Intrinsics are declared without bodies in the overlay; the engine interprets them.
 const intrinsicDecls = `
